@@ -140,6 +140,9 @@ def check_mat2(ctx: Ctx, case) -> bool:
     ok = True
     try:
         if api == "cumops":
+            if case.get("view", "contig") != "contig":   # out-of-place on a non-contiguous view of a larger buffer
+                x, _base, _bb = make_view(x, case["view"])
+                before = x.clone()
             y = pp().cumops(x, dim, ops)
         else:  # cumops_
             xin, base, base_before = make_view(x, case.get("view", "contig"))
